@@ -557,15 +557,18 @@ func derivesFromField(v ssa.Value, f *types.Var, seen map[ssa.Value]bool) bool {
 		if x.Op == token.MUL {
 			if fa, ok := x.X.(*ssa.FieldAddr); ok {
 				st := deref(fa.X.Type()).Underlying().(*types.Struct)
-				if st.Field(fa.Field) == f {
+				if sameField(st.Field(fa.Field), f) {
 					return true
 				}
 			}
 		}
 		return false
+	case *ssa.FieldAddr:
+		// address of a value-typed field (e.g. a sync.Mutex held by value)
+		return sameField(fieldOfAddr(x), f)
 	case *ssa.Field:
 		st := x.X.Type().Underlying().(*types.Struct)
-		if st.Field(x.Field) == f {
+		if sameField(st.Field(x.Field), f) {
 			return true
 		}
 		return derivesFromField(x.X, f, seen)
@@ -759,3 +762,15 @@ func shortFn(fn *ssa.Function) string {
 }
 
 func constantInt(n int64) constant.Value { return constant.MakeInt64(n) }
+
+// sameField: identical field objects, or the same declared field seen through different
+// instantiations of a generic struct (same name and declaration position).
+func sameField(a, b *types.Var) bool {
+	if a == b {
+		return true
+	}
+	if a == nil || b == nil {
+		return false
+	}
+	return a.Name() == b.Name() && a.Pos() == b.Pos() && a.Pos().IsValid()
+}
